@@ -1,4 +1,4 @@
-import PikaVerif.Lemmas.Barrier5
+import PikaVerif.Lemmas.Barrier6
 /-!
 # C09 (barrier part) — `pika::barrier` releases exactly when due
 
@@ -223,6 +223,15 @@ theorem C09B_drop (s s' : St) (hr : Reachable s) (t : Nat) (h : step s (.compl t
     · simp at h
   · simp at h
 
+/-- **The drops of a phase never exceed its expected count**: the signed update
+    `expected += expected_adjustment` of the code never goes below zero, so the natural-number
+    subtraction in `C09B_drop` is exact, and the next phase expects exactly `e0 − drops`
+    participants. -/
+theorem C09B_drops_bounded (s : St) (hr : Reachable s) : s.drops + s.count ≤ s.e0 := by
+  obtain ⟨n, N, log, hl⟩ := hr
+  have := (invC_of_accepted hl).dropB
+  omega
+
 /-! ## Progress of the search loop -/
 
 /-- **A searching arriver always has a free slot in its round.**  Whenever a thread is in the
@@ -249,6 +258,87 @@ theorem C09B_slot_available (s : St) (hr : Reachable s) (t : Nat) (ht : t < s.n)
   · exact Or.inr h
   · rw [h] at hw; simp [wt] at hw
 
+/-- A state is *quiescent* when the only events the model accepts are a thread starting a new
+    operation, ending its program, or a poll of `wait` that finds the phase unchanged. -/
+def Quiescent (s : St) : Prop :=
+  ∀ e s', step s e = some s' →
+    (∃ t o, e = .inv t o) ∨ (∃ t, e = .done t) ∨ (∃ t tok seen, e = .poll t tok seen ∧ s'.pc t = .polling)
+
+/-- **Progress: no thread is ever stuck inside an arriving operation.**  In every reachable
+    quiescent state every thread is between operations, finished, or polling in `wait` for a phase
+    whose byte still equals its token (the phase is not yet complete — or the token is a multiple
+    of 128 phases old, which the precondition of `wait` excludes).  In particular every thread
+    inside `arrive` / `arrive_and_drop` / the completion step always has an enabled step
+    (together with `C09B_slot_available`: its ticket search always has a free slot), and a waiter
+    whose phase byte has moved is released by its next poll. -/
+theorem C09B_progress (s : St) (hr : Reachable s) (hq : Quiescent s) :
+    ∀ t, t < s.n → s.pc t = .idle ∨ s.pc t = .fin ∨ (s.pc t = .polling ∧ s.phase = s.tok t) := by
+  obtain ⟨_, hb⟩ := hr.inv
+  intro t ht
+  have en : ∀ e, step s e ≠ none → (∀ t o, e ≠ .inv t o) → (∀ t, e ≠ .done t) →
+      (∀ t a b, e ≠ .poll t a b) → False := by
+    intro e hne h1 h2 h3
+    cases hs : step s e with
+    | none => exact hne hs
+    | some s' =>
+    rcases hq e s' hs with ⟨t, o, h⟩ | ⟨t, h⟩ | ⟨t, a, b, h, _⟩
+    · exact h1 t o h
+    · exact h2 t h
+    · exact h3 t a b h
+  cases hp : s.pc t
+  case idle => exact Or.inl rfl
+  case fin => exact Or.inr (Or.inl rfl)
+  case polling =>
+    refine Or.inr (Or.inr ⟨rfl, ?_⟩)
+    have hs : step s (.poll t (s.tok t) s.phase) =
+        some { s with pc := upd s.pc t (if s.phase = s.tok t then .polling else .retn) } := by
+      simp [step, ht, hp]
+    rcases hq _ _ hs with ⟨_, _, h⟩ | ⟨_, h⟩ | ⟨t', a, b, h, hpc⟩
+    · simp at h
+    · simp at h
+    · simp only [Ev.poll.injEq] at h
+      obtain ⟨rfl, _, _⟩ := h
+      simp only [upd_same] at hpc
+      by_cases he : s.phase = s.tok t
+      · exact he
+      · simp [he] at hpc
+  case want u =>
+    exact (en (.load t s.phase s.expected) (by simp [step, ht, hp]) (by simp) (by simp) (by simp)).elim
+  case wantDrop =>
+    exact (en (.adj t) (by simp [step, ht, hp]) (by simp) (by simp) (by simp)).elim
+  case arr u =>
+    have hu : 1 ≤ u := by have := hb.shape t; rw [hp] at this; exact this
+    have hrem : 1 ≤ rem (s.pc t) := by rw [hp]; exact hu
+    have hwn := no_win_of_rem hb t ht hrem
+    have hexp := (hb.noWin hwn).1
+    have hc0 := hb.c0
+    have := le_sumTo (f := fun u => rem (s.pc u)) ht
+    have he : 1 ≤ s.expected := by unfold Remsum at hc0; omega
+    exact (en (.start t 0) (by simp [step, ht, hp, hu]; omega) (by simp) (by simp) (by simp)).elim
+  case won u r =>
+    exact (en (.compl t) (by simp [step, ht, hp]) (by simp) (by simp) (by simp)).elim
+  case pub u r =>
+    exact (en (.publish t (fullB (s.tok t)) s.expected) (by simp [step, ht, hp]) (by simp) (by simp) (by simp)).elim
+  case retn =>
+    exact (en (.ret t) (by simp [step, ht, hp]) (by simp) (by simp) (by simp)).elim
+  case try2 u cur r m =>
+    by_cases hv : s.tk r cur = halfB (s.tok t)
+    · exact (en (.cas2 t cur r .up) (by simp [step, ht, hp, hv]) (by simp) (by simp) (by simp)).elim
+    · exact (en (.cas2 t cur r (.miss (s.tk r cur))) (by simp [step, ht, hp, hv]) (by simp) (by simp) (by simp)).elim
+  case «try» u cur r m =>
+    by_cases hm : m ≤ 1
+    · exact (en (.last t (s.tok t) s.expected) (by simp [step, ht, hp, hm]) (by simp) (by simp) (by simp)).elim
+    · have hm' : 1 < m := by omega
+      generalize hc : (if cur = (m + 1) / 2 then 0 else cur) = c
+      by_cases hl : c = (m + 1) / 2 - 1 ∧ m % 2 = 1
+      · by_cases hv : s.tk r c = s.tok t
+        · exact (en (.cas t c r .up) (by have := hl.1; subst this; simp [step, ht, hp, hm', hc, hl, hv]) (by simp) (by simp) (by simp)).elim
+        · exact (en (.cas t c r (.miss (s.tk r c))) (by have := hl.1; subst this; simp [step, ht, hp, hm', hc, hl, hv]) (by simp) (by simp) (by simp)).elim
+      · by_cases hv : s.tk r c = s.tok t
+        · exact (en (.cas t c r .half) (by simp [step, ht, hp, hm', hc, hl, hv]) (by simp) (by simp) (by simp)).elim
+        · by_cases hv2 : s.tk r c = halfB (s.tok t)
+          · exact (en (.cas t c r .seen) (by simp [step, ht, hp, hm', hc, hl, hv, hv2, halfB_ne]) (by simp) (by simp) (by simp)).elim
+          · exact (en (.cas t c r (.miss (s.tk r c))) (by simp [step, ht, hp, hm', hc, hl, hv, hv2, halfB_ne]) (by simp) (by simp) (by simp)).elim
 /-! ## Non-vacuity: concrete accepted logs -/
 
 /-- one participant, two phases (arrive_and_wait, then arrive + wait) -/
@@ -273,5 +363,27 @@ example : (runLog step (init 2 3) exampleLog).isSome = true := by decide
 example : ∃ s, runLog step (init 2 3) (exampleLog.take 20) = some s ∧ isWin (s.pc 1) = true := by
   refine ⟨_, rfl, ?_⟩
   decide
+
+/-- the events of phase `k` of a one-participant barrier -/
+def soloPhase (k : Nat) : List Ev :=
+  let p := (2 * k) % 256
+  [.inv 0 (.arrive 1), .load 0 p 1, .start 0 0, .last 0 p 1, .compl 0, .publish 0 ((p + 2) % 256) 1, .ret 0]
+
+def soloLog : Nat → List Ev
+  | 0 => []
+  | k + 1 => soloLog k ++ soloPhase k
+
+/-- 130 phases are accepted and the phase byte has wrapped around (130 · 2 mod 256 = 4): the
+    reachable states of the theorems above include states beyond the `uint8` wrap -/
+example : ((runLog step (init 1 1) (soloLog 130)).map (fun s => (s.ph, s.phase))) = some (130, 4) := by
+  decide +kernel
+
+/-- why `C09B_waiter_released` needs `ph − tokIdx < 128`: a thread that waits with a token that is
+    exactly 128 phases old (here: the never-used initial token 0 after 128 phases) sees the same
+    byte and keeps polling — the precondition of `wait` (token of the current or the immediately
+    preceding phase) excludes this -/
+example : ((runLog step (init 2 1) (soloLog 128 ++ [.inv 1 .wait, .poll 1 0 0])).map
+    (fun s => (s.ph, s.phase, decide (s.pc 1 = .polling)))) = some (128, 0, true) := by
+  decide +kernel
 
 end PikaVerif.C09Barrier
